@@ -423,9 +423,9 @@ Proof.
   - destruct empty_layout as (L0 & A0).
     split; [exact Hcodes|]. intros t Ht H0. rewrite Hdb. cbn [combine]. split.
     + unfold read_chan, chan_layout. cbn -[read_loop u_seek_first].
-      rewrite <- A0 at 1. apply (read_one_exact _ _ _ L0 t Ht H0).
+      change (read_spec [] t) with (read_spec (layout_assoc [] []) t). apply (read_one_exact _ _ _ L0 t Ht H0).
     + unfold read_chan, chan_layout. cbn -[read_loop u_seek_first].
-      rewrite <- A0 at 1. apply (read_one_exact _ _ _ L0 t Ht H0).
+      change (read_spec [] t) with (read_spec (layout_assoc [] []) t). apply (read_one_exact _ _ _ L0 t Ht H0).
 Qed.
 
 Opaque last app zlen.
